@@ -6,6 +6,7 @@
 package ref
 
 import (
+	"math/big"
 	"bytes"
 	"encoding/json"
 	"fmt"
@@ -257,7 +258,7 @@ func EqualEps(a, b V, eps float64) bool {
 		return ok && x == y
 	case float64:
 		y, ok := b.(float64)
-		return ok && math.Abs(x-y) <= eps
+		return ok && ExactWithin(x, y, eps)
 	case string:
 		y, ok := b.(string)
 		return ok && x == y
@@ -288,6 +289,23 @@ func EqualEps(a, b V, eps float64) bool {
 	panic(fmt.Sprintf("ref.EqualEps: unsupported %T", a))
 }
 
+// ExactWithin decides |x-y| <= eps in exact rational arithmetic over the float64 values.
+func ExactWithin(x, y, eps float64) bool {
+	a, b, e := new(big.Rat).SetFloat64(x), new(big.Rat).SetFloat64(y), new(big.Rat).SetFloat64(eps)
+	d := new(big.Rat).Sub(a, b)
+	d.Abs(d)
+	return d.Cmp(e) <= 0
+}
+
+// subExact reports whether the float64 subtraction x-y is exact (no rounding), in which case a
+// floating-point implementation of "within eps" has no excuse to differ from ExactWithin.
+func subExact(x, y float64) bool {
+	a, b := new(big.Rat).SetFloat64(x), new(big.Rat).SetFloat64(y)
+	d := new(big.Rat).Sub(a, b)
+	f := new(big.Rat).SetFloat64(x - y)
+	return f != nil && d.Cmp(f) == 0
+}
+
 // NearBoundary reports whether some pair of corresponding numbers lies so close to
 // |x-y| == eps that floating point makes "within eps" ambiguous; such cases take no verdict.
 func NearBoundary(a, b V, eps float64) bool {
@@ -295,7 +313,8 @@ func NearBoundary(a, b V, eps float64) bool {
 	case float64:
 		if y, ok := b.(float64); ok {
 			d := math.Abs(x - y)
-			return math.Abs(d-eps) < 1e-9
+			// close to the boundary AND the subtraction rounds: ambiguous, no verdict
+			return math.Abs(d-eps) < 1e-9 && !subExact(x, y)
 		}
 	case []interface{}:
 		if y, ok := b.([]interface{}); ok && len(x) == len(y) {
